@@ -409,6 +409,33 @@ where
         let hexs = pk.encode();
         h.expect(hex::decode(&hexs).ok().as_deref() == Some(&hon.pk[..]), "C09.hex", "public key hex form differs from its octets", &[]);
     }
+    // JSON round trips for the boundary shapes: nothing hidden (U = 0), nothing disclosed, no messages at
+    // all, commitments to zero messages
+    {
+        let (sk, pk) = rand_keypair::<CS>(h);
+        for l in [0usize, 1, 3] {
+            let msgs = rand_msgs(h, l);
+            if let Some(s) = sign::<CS>(h, &sk, &pk, None, Some(&msgs)).ok() {
+                for d in [(0..l).collect::<Vec<usize>>(), vec![]] {
+                    if let Some(p) = honest_proof::<CS>(h, &pk, &s.to_bytes(), None, None, &msgs, &d, true) {
+                        h.stat("C09.json_shapes");
+                        let js = serde_json::to_string(&p);
+                        let back: Option<Pok<CS>> = js.as_ref().ok().and_then(|t| serde_json::from_str(t).ok());
+                        h.expect(matches!(&back, Some(b) if b.to_bytes() == p.to_bytes()), "C09.json_roundtrip_shape", &format!("proof with L = {}, {} disclosed does not survive its JSON encoding", l, d.len()), &[]);
+                        let inner = BBSplusPoKSignature::from_bytes(&p.to_bytes()).unwrap();
+                        let back2: Option<BBSplusPoKSignature> = serde_json::to_string(&inner).ok().and_then(|t| serde_json::from_str(&t).ok());
+                        h.expect(back2.as_ref() == Some(&inner), "C09.json_roundtrip_shape_inner", "proof object does not survive its JSON encoding", &[]);
+                    }
+                }
+            }
+            let cm = rand_msgs(h, l);
+            let tape = rand_tape(h, l + 2);
+            if let (Some((c, _)), _) = { let (o, d) = commit::<CS>(h, Some(&cm), tape); (o.ok(), d) } {
+                let back: Option<Com<CS>> = serde_json::to_string(&c).ok().and_then(|t| serde_json::from_str(&t).ok());
+                h.expect(matches!(&back, Some(b) if b.to_bytes() == c.to_bytes()), "C09.json_roundtrip_commit_shape", &format!("commitment to {} messages does not survive its JSON encoding", l), &[]);
+            }
+        }
+    }
     // hex forms and the message-scalar codec on boundary values (leading zero bytes, 0, 1, r-1)
     {
         use zkryptium::utils::message::bbsplus_message::BBSplusMessage;
